@@ -17,6 +17,7 @@ type PropDef struct {
 	AllowUnsupported map[string]bool
 	NeedObligations  bool
 	QuickTimeout     int
+	Exclude          []string // functions not part of this property (regexps)
 }
 
 func kinds(ks ...string) map[string]bool {
@@ -50,7 +51,7 @@ func init() {
 			`\(\*messages\.APReq\)\.(Verify|DecryptAuthenticator)`, `\(\*messages\.Ticket\)\.(GetPACType|DecryptEncPart|Decrypt|Valid)`,
 			`\(\*messages\.(ASRep|TGSRep)\)\.(Verify|DecryptEncPart)`, `\(\*messages\.(KRBPriv|KRBCred|EncAPRepPart)\)\.[A-Za-z]+`,
 			`service\.VerifyAPREQ`, `\(service\.KRB5BasicAuthenticator\)\.Authenticate`, `service\.parseBasicHeaderValue`,
-			`spnego\.SPNEGOKRB5Authenticate\$1`, `\(\*spnego\.SPNEGO\)\.AcceptSecContext`, `\(\*spnego\.[A-Za-z0-9]+\)\.Verify`, `\(spnego\.[A-Za-z0-9]+\)\.Verify`,
+			`spnego\.SPNEGOKRB5Authenticate\$1`, `\(\*spnego\.SPNEGO\)\.AcceptSecContext`, `\(\*spnego\.[A-Za-z0-9]+\)\.Verify`,
 			`spnego\.(UnmarshalNegToken|getAuthorizationNegotiationHeaderAsSPNEGOToken)`,
 			// GSS
 			`\(\*gssapi\.(WrapToken|MICToken)\)\.(Verify|Unmarshal|computeCheckSum|SetCheckSum)`,
@@ -79,6 +80,7 @@ func init() {
 			"allocation bound: every make() size is <= 64*(total length of byte/string inputs of the function) + 4096",
 		},
 		NotDecided: []string{"panics, hangs and allocations inside trusted dependencies", "functions outside the subset (channels, unsafe) are listed, not proved"},
-		AllowUnsupported: map[string]bool{},
+		AllowUnsupported: map[string]bool{"(*client.Client).enableAutoSessionRenewal$1": true, "(*client.sessions).update": true, "(*client.session).destroy": true},
+		Exclude:          []string{`service\.GetReplayCache\$1\$1`, `service\.GetReplayCache\$1`},
 	}
 }
